@@ -33,7 +33,11 @@ def lower_bound(meta, lib):
         c = []
         for fold in (0, 1):
             c.append((ds.replace(tzinfo=z, fold=fold)).astimezone(D.timezone.utc).replace(tzinfo=None))
-        # exactness of the zone conversion is C07's business (LMT offsets, gaps): one day of slack here
+        # a wall-clock time that exists exactly once after 1902 has one UTC image: that is the bound; otherwise (gap, fold,
+        # LMT era) the exact conversion is C07's business and a day of slack is left
+        back = [x.replace(tzinfo=D.timezone.utc).astimezone(z).replace(tzinfo=None) for x in c]
+        if c[0] == c[1] and back[0] == ds and ds.year >= 1902:
+            return c[0]
         return min(c) - D.timedelta(hours=26)
     return ds
 
